@@ -145,11 +145,13 @@ def check(ctx):
     # ------------------------------------------------------------------ R14.5 unique -> shared, OgreUnique !Clone
     k = f"{UNIQ}::into_ogre_arc"
     body = Body(fx.fn(k)); dg = D.Dag(body)
-    md = [(b, c) for (b, c) in body.calls if c.get("fname") == "new" and "ManuallyDrop" in (c.get("f") or "") and dg.expr(c["args"][0])[:2] == ("param", 1)]
+    # ownership sinks that suppress the destructor: ManuallyDrop::new(self) or mem::forget(self)
+    md = [(b, c) for (b, c) in body.calls if c["args"] and dg.expr(c["args"][0])[:2] == ("param", 1) and c["args"][0][0] == "m"
+          and ((c.get("fname") == "new" and "ManuallyDrop" in (c.get("f") or "")) or (c.get("f") or "") in ("std::mem::forget", "core::mem::forget"))]
     drops_self = body.live_drops(1)
     okm = len(md) == 1 and body.dominates(md[0][0], body.returns[0]) if body.returns else False
     ctx.ob("R14.5", f"{k}|suppresses-unique-drop", bool(okm) and not drops_self, f"{body.f['file']}:{body.f['line']}",
-           "self is moved into ManuallyDrop on every path and never dropped (otherwise the value is destroyed while the new shared handle points at it)")
+           "self is moved into ManuallyDrop / mem::forget on every path and never dropped (otherwise the value is destroyed while the new shared handle points at it)")
     mk = [(b, c) for (b, c) in body.calls if c.get("fname") in ("from_allocated", "from_allocated_with_clones")]
     ctx.ob("R14.5", f"{k}|one-shared-handle", len(mk) == 1 and not util.in_loop(body, mk[0][0]), f"{body.f['file']}:{body.f['line']}", "creates exactly one shared control block for the value")
     if mk:
